@@ -37,7 +37,8 @@ RULE = ("charts of the five games (0-24 hits, 0-8 holds, 1-20 tempo points (thor
         "re-appended / cut with after()+before() / reversed by [::-1] / rotated by two slices / sorted then items appended / "
         "columns re-assigned in place after sorted(); posts in deepcopy / assigned to another chart and read back (also "
         "through the chart's deepcopy) / TimedList(list) / [:]  x one of 11 claims (dominant, normalize, "
-        "speed, full_ln, rate, convert (17 entry points), hitsound, write_osu, write_qua, write_sm, write_bms); writer "
+        "speed, full_ln, rate, convert (17 entry points), hitsound, write_osu, write_qua, write_sm, write_bms) or the "
+        "correspondence-only claim bpmlist (current_bpm with and without sort, time_diff, ave_bpm vs Model/BpmList.lean); writer "
         "charts are laid out on a beat grid with tempo changes on measure lines; a small share of cases carries a tie "
         "that makes the result inherently order dependent (two different tempo points at one time, different SVs at one "
         "time, a hit and a hold on one (time, column)) and is only tagged; non-trivial = some list with >= 2 distinct "
@@ -69,7 +70,8 @@ E_MULTS = [0.25, 0.5, 0.75, 1, 1.25, 1.5, 2, 3, 4, 0.125]
 WRITER_BPMS = [Fr(b) for b in (60, 75, 100, 120, 125, 150, 200, 240, 250, 300, 375)]
 RATES = [Fr(1, 2), Fr(2), Fr(4), Fr(1, 4), Fr(1), Fr(8)]
 CLAIMS = ["dominant", "normalize", "speed", "full_ln", "rate", "convert", "hitsound",
-          "write_osu", "write_qua", "write_sm", "write_bms"]
+          "write_osu", "write_qua", "write_sm", "write_bms", "bpmlist"]
+DELTA_DEFAULT = R(Fr(0.1))      # `delta=0.1` of BpmList.current_bpm, the exact value of that double
 CONVS = ["BMSToOsu.convert", "BMSToQua.convert", "BMSToSM.convert", "O2JToBMS.convert", "O2JToOsu.convert",
          "O2JToQua.convert", "O2JToSM.convert", "O2JToSM.convert_merge", "OsuToBMS.convert", "OsuToQua.convert",
          "OsuToSM.convert", "QuaToBMS.convert", "QuaToOsu.convert", "QuaToSM.convert", "SMToBMS.convert",
@@ -980,10 +982,87 @@ def run_write_bms(case, drv):
         same = texts[0][:2] == texts[1][:2] and texts[0][0] == "err"
     return _write_result("write_bms", case, drv, s1, s2, texts, dens, same, extra_tags=extra)
 
+# ------------------------------------------------------------------------------------------ BpmList list-level queries
+
+def run_bpmlist(case, drv):
+    """BpmList.current_bpm (sort=True / sort=False), TimedList.time_diff, BpmList.ave_bpm on the tempo list in both row
+    orders against the models of Model/BpmList.lean (current_bpm_perm, time_diff_perm, ave_bpm_order_counterexample).
+    The property's statement does not name these routines: nothing is demanded of the implementation here (`ok`), the
+    claim keeps the models of the theorems tied to the code (`agree`); a dependence on row order is tagged."""
+    m1, m2, s1, s2 = setup(case)
+    tags = base_tags(case, s1, s2)
+    t, delta, last = F(case["t"]), F(case["delta"]), F(case["last"])
+    d = domain(drv, s1)
+    dom = d["tempo_ties_equal"]
+    if not dom:
+        tags.append("tempo-tie-order-dependent")
+    out = []
+    for m in (m1, m2):
+        b = m.bpms
+        o = {}
+        for name, kw in (("cur", {}), ("cur_nosort", dict(sort=False))):
+            try:
+                x = b.current_bpm(float(t), delta=float(delta), **kw)
+                o[name] = ["ok", [fr(x.offset), fr(x.bpm)]]
+            except Exception as e:
+                o[name] = ["err", err_class(e)]
+        try:
+            o["diff"] = ["ok", [fr(v) for v in b.time_diff(float(last)).tolist()]]
+        except Exception as e:
+            o["diff"] = ["err", err_class(e)]
+        try:
+            v = float(b.ave_bpm(float(last)))
+            o["ave"] = ["ok", Fr(v) if math.isfinite(v) else None]
+        except Exception as e:
+            o["ave"] = ["err", err_class(e)]
+        try:
+            ds = b.describe()
+            o["describe"] = ["ok", {c: {k: fr(ds[c][k]) for k in ("count", "mean", "std", "min", "25%", "50%", "75%", "max")}
+                                    for c in ("offset", "bpm")}]
+        except Exception as e:
+            o["describe"] = ["err", err_class(e)]
+        out.append(o)
+    mo = [drv.call("c15.bpmlist", bpms=s["bpms"], t=R(t), delta=R(delta), last=R(last))["ok"] for s in (s1, s2)]
+    agree = True
+    for o, mm, s in zip(out, mo, (s1, s2)):
+        for name in ("cur", "cur_nosort"):
+            if o[name][0] == "ok":
+                agree = agree and mm[name] is not None and [F(mm[name][0]), F(mm[name][1])] == o[name][1]
+            else:
+                agree = agree and mm[name] is None and o[name][1] == "index"
+        agree = agree and o["diff"][0] == "ok" and [F(x) for x in mm["diff"]] == o["diff"][1]
+        first = min(F(r[0]) for r in s["bpms"])
+        if last != first:
+            agree = agree and o["ave"][0] == "ok" and o["ave"][1] is not None and close(F(mm["ave"]), o["ave"][1])
+        agree = agree and o["describe"][0] == "ok"
+        if o["describe"][0] == "ok":
+            for c in ("offset", "bpm"):
+                got, want = o["describe"][1][c], mm["describe_" + c]
+                agree = agree and got["count"] == want["count"]
+                for k, kk in (("mean", "mean"), ("min", "min"), ("25%", "q25"), ("50%", "q50"), ("75%", "q75"), ("max", "max")):
+                    agree = agree and got[k] is not None and close(F(want[kk]), got[k])
+                if want["count"] >= 2:
+                    agree = agree and got["std"] is not None and close(F(want["var"]), got["std"] * got["std"])
+    # the conclusions of the theorems on the model
+    agree = agree and mo[0]["describe_offset"] == mo[1]["describe_offset"] and mo[0]["describe_bpm"] == mo[1]["describe_bpm"]
+    if out[0]["describe"] != out[1]["describe"]:
+        tags.append("describe-follows-row-order(float summation order)")
+    agree = agree and mo[0]["diff"] == mo[1]["diff"] and (not dom or mo[0]["cur"] == mo[1]["cur"])
+    if out[0]["cur"] != out[1]["cur"]:
+        tags.append("current-bpm-follows-row-order")
+    if out[0]["cur_nosort"] != out[1]["cur_nosort"]:
+        tags.append("current-bpm-nosort-follows-row-order")
+    if out[0]["diff"] != out[1]["diff"]:
+        tags.append("time-diff-follows-row-order")
+    if out[0]["ave"] != out[1]["ave"]:
+        tags.append("ave-bpm-follows-row-order")
+    return res("bpmlist", True, agree, dom, tags, reordered(s1, s2) and len(s1["bpms"]) >= 2,
+               dict(impl=[str(o)[:1500] for o in out], model=mo, bpms=s1["bpms"], bpms_permuted=s2["bpms"]))
+
 
 RUNNERS = dict(dominant=run_dominant, normalize=run_normalize, speed=run_speed, full_ln=run_full_ln, rate=run_rate,
                convert=run_convert, hitsound=run_hitsound, write_osu=run_write_osu, write_qua=run_write_qua,
-               write_sm=run_write_sm, write_bms=run_write_bms)
+               write_sm=run_write_sm, write_bms=run_write_bms, bpmlist=run_bpmlist)
 
 
 def n15b_shape(case):
@@ -1183,7 +1262,7 @@ def gen_search(rng, tier, i):
 
 def gen(rng, tier, i, hist_p=0.5):
     claim = rng.choice(["dominant", "dominant", "normalize", "speed", "speed", "full_ln", "full_ln", "rate", "convert",
-                        "convert", "hitsound", "write_osu", "write_qua", "write_sm", "write_bms"])
+                        "convert", "hitsound", "write_osu", "write_qua", "write_sm", "write_bms", "bpmlist"])
     pseed = rng.randrange(1 << 30)
     if claim == "hitsound":
         src, tgt = gen_hitsound(rng, tier)
@@ -1210,6 +1289,8 @@ def gen(rng, tier, i, hist_p=0.5):
         ties = "sv"
     elif q < 0.1 and claim == "full_ln":
         ties = "note"
+    elif q < 0.06 and claim == "bpmlist":
+        ties = "tempo"
     chart, keys = gen_free_chart(rng, tier, game, ties)
     c = dict(claim=claim, game=game, pseed=pseed, how=gen_how(rng, game, hist_p), chart=chart, keys=keys)
     if claim in ("normalize", "speed"):
@@ -1222,6 +1303,16 @@ def gen(rng, tier, i, hist_p=0.5):
         c["r"] = R(rng.choice(RATES))
     if claim == "convert":
         c["conv"] = conv
+    if claim == "bpmlist":
+        times = sorted(F(r[0]) for r in chart["bpms"])
+        offs = [F(r[0]) for k in LISTS for r in chart[k]]
+        q = rng.random()
+        t = rng.choice(times) if q < 0.35 else (times[0] - rng.choice([125, Fr(1, 8), Fr(1, 16)]) if q < 0.5 else
+                                                min(offs) + g_time(rng, 45000))
+        c["t"] = R(t)
+        c["delta"] = rng.choice([DELTA_DEFAULT, DELTA_DEFAULT, R(0), R(Fr(1, 8)), R(1)])
+        last = max(offs) + rng.choice([0, 125, 1000]) if rng.random() < 0.7 else rng.choice(times) + rng.choice([0, Fr(125, 2)])
+        c["last"] = R(last if last != 0 else Fr(125))
     return c
 
 
@@ -1264,6 +1355,21 @@ def corpus():
         c.append(_c("write_" + g, g, hits=[(0, 0), (500, 1), (2000, 3), (2250, 0)], holds=[(1000, 2, 500)],
                     bpms=[(0, 120), (2000, 240), (3000, 60)], svs=[(0, 1), (500, 2)] if g in SV_GAMES else [],
                     how="append", pseed=3, sm_offset=R(0)))
+    # row orders reached through list histories: two sections whose tempo points interleave, each section sorted, then
+    # concatenated; the same through another chart and a deepcopy
+    for cl, g, kw in (("dominant", "osu", {}), ("dominant", "sm", {}), ("normalize", "qua", dict(override=None)),
+                      ("speed", "osu", dict(override=None)), ("speed", "bms", dict(override=None))):
+        for ps in (1, 2, 3):
+            for h in ("h:sorted_concat", "h:sorted_concat+via_chart_copy", "h:resorted_concat+deepcopy", "h:rotate+ctor",
+                      "h:reverse_slice+slice_all", "h:inplace"):
+                c.append(_c(cl, g, hits=[(0, 0), (1000, 1), (21000, 3), (30000, 1), (5000, 1), (16000, 2)], holds=[(2000, 3, 700)],
+                            bpms=[(0, 120), (20000, 150), (5000, 200), (12000, 75)],
+                            svs=[(2500, 1.5), (25000, 2), (8000, 0.5)] if g in SV_GAMES else [], how=h, pseed=ps, **kw))
+    for ps in (1, 2):
+        c.append(_c("bpmlist", "osu", hits=[(0, 0), (4000, 1)], bpms=[(0, 100), (1000, 200), (1250, 150)], how="revsort", pseed=ps,
+                    t=R(1100), delta=DELTA_DEFAULT, last=R(4000)))
+        c.append(_c("bpmlist", "bms", hits=[(0, 0), (4000, 1)], bpms=[(500, 100), (1000, 200)], how="h:sorted_concat", pseed=ps,
+                    t=R(0), delta=R(0), last=R(2000)))
     s = lambda hs=0, f="", v=20: dict(hs=hs, ss=0, ad=0, cs=0, v=v, f=f)
     c.append(dict(claim="hitsound", game="osu", pseed=2, how={k: "revsort" for k in LISTS}, keys=7,
                   src=dict(hits=[[R(0), 0, s(2)], [R(0), 1, s(4, "a.wav")], [R(0), 2, s(8, "b.wav", 30)], [R(500), 0, s(0, "c.wav")]],
@@ -1328,6 +1434,10 @@ def valid(case):
             return False
         if case["claim"] == "rate" and not (_isR(case["r"]) and F(case["r"]) > 0 and
                                             (F(case["r"]).numerator & (F(case["r"]).numerator - 1)) == 0):
+            return False
+        if case["claim"] == "bpmlist" and not (_isR(case.get("t")) and _isR(case.get("last")) and F(case["last"]) != 0 and
+                                               (case.get("delta") == DELTA_DEFAULT or
+                                                (_isR(case.get("delta")) and F(case["delta"]) >= 0))):
             return False
         if case["claim"] == "convert" and (case.get("conv") not in CONVS or
                                            not case["conv"].startswith([k for k, v in SRC_OF.items() if v == case["game"]][0] + "To")):
